@@ -36,6 +36,7 @@ type Engine struct {
 	repoRoot      string
 	modPath       string
 	anyLoopSeen   bool
+	knownWritten  map[string]bool
 	usedLemmas    map[string]bool
 }
 
@@ -176,6 +177,16 @@ func detectMode(fn *ssa.Function, seen map[*ssa.Function]bool) Mode {
 			if uo, ok := in.(*ssa.UnOp); ok && uo.Op == token.XOR {
 				return ModeBV
 			}
+			if ci, ok := in.(ssa.CallInstruction); ok && len(seen) < 12 {
+				if callee := ci.Common().StaticCallee(); callee != nil && len(callee.Blocks) > 0 && callee.Pkg != nil {
+					pp := callee.Pkg.Pkg.Path()
+					if pp == "math/bits" || pp == "encoding/binary" {
+						if detectMode(callee, seen) == ModeBV {
+							return ModeBV
+						}
+					}
+				}
+			}
 		}
 	}
 	return ModeInt
@@ -195,7 +206,9 @@ func (e *Engine) verifyFunc(c *Contract) (res *FuncResult) {
 	}
 	res.Mode = mode
 	var known map[string]string
-	for pass := 0; pass < 4; pass++ {
+	e.knownWritten = nil
+	written := map[string]bool{}
+	for pass := 0; pass < 6; pass++ {
 		vc, err := e.genFunc(c, fn, mode, known)
 		if err != "" {
 			res.Err = err
@@ -214,6 +227,13 @@ func (e *Engine) verifyFunc(c *Contract) (res *FuncResult) {
 				grown = true
 			}
 		}
+		for k := range vc.written {
+			if !written[k] {
+				written[k] = true
+				grown = true
+			}
+		}
+		e.knownWritten = written
 		if !grown || !e.anyLoopSeen {
 			res.Obligs = vc.obligs
 			for k := range vc.usedExt {
@@ -238,8 +258,9 @@ func hasLoops(fn *ssa.Function) bool {
 }
 
 func (e *Engine) genFunc(c *Contract, fn *ssa.Function, mode Mode, known map[string]string) (vc *VC, errs string) {
-	e.ar = &Arith{mode: mode}
+	e.ar = &Arith{mode: mode, needUF: map[string][2]interface{}{}}
 	vc = newVC(e, c.Key)
+	vc.ufs = e.ar.needUF
 	e.vc = vc
 	e.curContract = c
 	e.entryState = nil
@@ -462,8 +483,9 @@ func (e *Engine) lemmaInstance(env *Env, call *ast.CallExpr) string {
 
 func (e *Engine) verifyLemma(l *Lemma) (res *FuncResult) {
 	res = &FuncResult{Key: "lemma:" + l.Name, Mode: l.Mode}
-	e.ar = &Arith{mode: l.Mode}
+	e.ar = &Arith{mode: l.Mode, needUF: map[string][2]interface{}{}}
 	vc := newVC(e, "lemma:"+l.Name)
+	vc.ufs = e.ar.needUF
 	e.vc = vc
 	e.curContract = nil
 	e.entryState = nil
